@@ -1,18 +1,24 @@
 #!/bin/bash
-# usage: tools/seed_test.sh <patch.diff> <ID> [<ID>…]   — apply a seeded change to /repo, run the quick checks, undo it.
+# usage: tools/seed_test.sh <patch.diff> <ID> [<ID>…]   — apply a seeded change to the code tree, run the quick checks, undo it.
+# By default works on /verif + /repo; VERIF_DIR=<clone of /verif> runs in that clone against the tree named in its .verif_repo
+# (so seeds can be tested while /repo is busy with other runs).
 P=$(readlink -f "$1"); shift
-cd /repo || exit 2
-if ! git diff --quiet; then echo "/repo has uncommitted changes; refusing"; exit 2; fi
+V=${VERIF_DIR:-/verif}
+R=$(cat $V/.verif_repo 2>/dev/null || echo /repo)
+cd $R || exit 2
+if ! git diff --quiet; then echo "$R has uncommitted changes; refusing"; exit 2; fi
 git apply "$P" || { echo "patch does not apply"; exit 2; }
 CHANGED=$(git diff --name-only)
 sleep 1; touch $CHANGED   # cargo's mtime fingerprint must see the edit
-trap 'cd /repo; git checkout -- . ; git clean -fdq -- src tests 2>/dev/null; sleep 1; touch $CHANGED 2>/dev/null' EXIT
-cd /verif
+trap 'cd $R; git checkout -- . ; git clean -fdq -- src tests 2>/dev/null; sleep 1; touch $CHANGED 2>/dev/null' EXIT
+cd $V
+T=$(mktemp -d)
 for id in "$@"; do
   echo "=== $id with $(basename $(dirname $P))/$(basename $P)"
-  cp evidence/$id.json /tmp/seed_test.$$.ev 2>/dev/null
-  ./check $id --tier ${TIER:-quick} > /tmp/seed_test.$$.log 2>&1; rc=$?
-  cp /tmp/seed_test.$$.ev evidence/$id.json 2>/dev/null; rm -f /tmp/seed_test.$$.ev
-  tail -8 /tmp/seed_test.$$.log; rm -f /tmp/seed_test.$$.log
+  cp evidence/$id.json $T/ev 2>/dev/null
+  ./check $id --tier ${TIER:-quick} > $T/log 2>&1; rc=$?
+  cp $T/ev evidence/$id.json 2>/dev/null
+  tail -8 $T/log
   echo "exit=$rc"
 done
+rm -rf $T
